@@ -27,6 +27,7 @@ type Actor struct {
 	// other actors may need (see Sched.Blockers).
 	Group   string
 	Adopted bool // a goroutine of the system under test parked at an adoption site
+	Arg     interface{} // the argument the adoption site passed (e.g. a worker id)
 }
 
 // Sched owns the actors of one run.
@@ -59,7 +60,7 @@ func init() {
 		a := s.byGID[gid]
 		enabled := s.Sites == nil || s.Sites[site]
 		if a == nil && enabled && s.Adopt[site] {
-			a = &Actor{ID: len(s.actors), Name: "adopted:" + site, gate: make(chan struct{}), sched: s, Adopted: true}
+			a = &Actor{ID: len(s.actors), Name: "adopted:" + site, gate: make(chan struct{}), sched: s, Adopted: true, Arg: arg}
 			s.actors = append(s.actors, a)
 			s.byGID[gid] = a
 		}
